@@ -72,7 +72,16 @@ def run(ctx):
     for f in ops:
         sname = f.params[0]["name"]
         rv = "&&" in (f.params[0].get("type") or "")
-        tag = ("rvalue" if rv else "lvalue") + (":callable" if (f.params[1].get("type") or "") == "T" else ":value")
+        # callable or value overload: told apart by what reaches the buffer (`t()` or `t`), not by the parameter's spelling
+        tname = f.params[1]["name"]
+        calls_it = any(n.get("k") in ("call", "ucall") and fmt(ir.unwrap(n.get("callee") or n.get("this") or {})) == tname or fmt(n) in ("%s()" % tname, "?()")
+                       for _, _, e in f.roots() for n in walk(e["expr"], into_sc=False) if isinstance(n, dict))
+        tag = ("rvalue" if rv else "lvalue") + (":callable" if calls_it else ":value")
+        if not calls_it:
+            pt = (f.params[1].get("type") or "").strip()
+            ctx.check(pt.endswith("&"), "R05.7", f, "operand-by-reference:" + tag + "@%s" % f.line,
+                      "the overload takes the streamed item as `%s %s`, a copy of its static type: an object streamed through a base-class reference is sliced before it is inserted, "
+                      "so the message differs from inserting the item itself (and from the other syntactic form)" % (pt, tname), f, why_ok=pt)
         rets = [fmt(ir.unwrap(e["expr"].get("e"))) for _, _, e in f.roots() if e["expr"].get("k") == "return"]
         if rv:
             ok = bool(rets) and all(r in ("move(%s)" % sname,) for r in rets) and not f.ret.rstrip().endswith("&")
@@ -81,7 +90,6 @@ def run(ctx):
             ok = bool(rets) and all(r == sname for r in rets) and f.ret.rstrip().endswith("&")
             ctx.check(ok, "R05.1", f, "returns-same-stream:" + tag, "the lvalue operator<< returns %s as %s instead of the same stream object" % (rets, f.ret), f)
         # ---- R05.7: what is inserted
-        tname = f.params[1]["name"]
         ins = []
         for bid, i, e in f.roots():
             for n in walk(e["expr"], into_sc=False):
@@ -175,12 +183,16 @@ def run(ctx):
     wf = [g for g in prog.find("vwit::thresholds_are_independent") if g.has_cfg]
     if ctx.anchor("R05.4", "vwit::thresholds_are_independent", bool(wf)):
         keys = []
+        tls = set()
         for _, _, e in wf[0].roots():
             for n0 in elem_calls(e):
                 if short(n0.get("name") or "") == "set_severity" and n0.get("callee"):
                     cal = prog.fn(n0["callee"])
-                    keys.append((n0["callee"], frozenset(_storage_written(prog, cal, 0)) if cal is not None else frozenset()))
+                    keys.append((n0["callee"], frozenset(_storage_written(prog, cal, 0, tls)) if cal is not None else frozenset()))
         ctx.need("R05.4", "set_severity instantiations in the witness", len(keys), 3)
+        ctx.check(not tls, "R05.4", "nitro::log::filter::severity_filter", "threshold-is-process-wide",
+                  "the threshold object %s is thread_local: a threshold configured on one thread is invisible to every other thread, whose statements are judged against the initial value "
+                  "(records below the configured threshold are accepted, formatted and sunk there)" % sorted(tls), "-", why_ok="static storage, one object per process")
         ok_all = len(keys) == 3 and all(k[1] for k in keys)
         clash = []
         for i in range(len(keys)):
@@ -339,7 +351,7 @@ def run(ctx):
     ctx.trust("elements of a braced init-list are evaluated left to right (Appendix D.5)")
 
 
-def _storage_written(prog, f, depth):
+def _storage_written(prog, f, depth, tls=None):
     """keys of static-storage objects that f assigns: directly, through a reference returned by a callee (function-local
     static behind an accessor), or inside a callee"""
     from sa.callgraph import lvalue_root
@@ -357,6 +369,8 @@ def _storage_written(prog, f, depth):
                 t = ir.unwrap(x["e"])
                 if isinstance(t, dict) and t.get("k") == "ref" and (t.get("storage") in ("static_local", "static_member", "namespace") or t.get("decl", "").split(":")[0] in ("static", "global")):
                     r.add(g.id + "|" + t["decl"])
+                    if tls is not None and t.get("thread_local"):
+                        tls.add(g.id + "|" + t["decl"])
                 elif isinstance(t, dict) and t.get("k") == "call" and t.get("callee"):
                     r |= returned_statics(prog.fn(t["callee"]), d + 1)
         return r
@@ -367,11 +381,13 @@ def _storage_written(prog, f, depth):
                 t = ir.unwrap(lv)
                 if isinstance(t, dict) and t.get("k") == "ref" and (t.get("storage") in ("static_local", "static_member", "namespace") or t.get("decl", "").split(":")[0] in ("static", "global")):
                     out.add((f.id + "|" if t.get("storage") == "static_local" else "") + t["decl"])
+                    if tls is not None and t.get("thread_local"):
+                        tls.add(t["decl"])
                 elif isinstance(t, dict) and t.get("k") == "call" and t.get("callee"):
                     out |= returned_statics(prog.fn(t["callee"]), depth + 1)
         for n in elem_calls(e):
             if n.get("callee") and short(n.get("name") or "") not in ("operator=",):
                 g = prog.fn(n["callee"])
                 if g is not None and g.has_cfg and g.file.startswith("/repo/") and g.id != f.id:
-                    out |= _storage_written(prog, g, depth + 1)
+                    out |= _storage_written(prog, g, depth + 1, tls)
     return out
